@@ -406,6 +406,9 @@ func (r *Runner) RunBehaviour(steps []M) error {
 		if err := r.Step(s); err != nil {
 			return fmt.Errorf("step %d (%s): %w", i, mStr(s, "a"), err)
 		}
+		if r.W != nil && r.W.Halted {
+			break // a begin/end blocker or commit panicked: the chain is halted, nothing more can run
+		}
 	}
 	return nil
 }
